@@ -456,6 +456,7 @@ func (e *Engine) localEffectsOwner(fi *FuncInfo, owner *FuncInfo) *FuncEffects {
 			}
 		case *ast.CallExpr:
 			e.callEffects(owner, fe, n)
+			e.syncEffects(n, lvalKeys)
 		}
 		return true
 	})
@@ -630,6 +631,42 @@ func (e *Engine) callEffects(fi *FuncInfo, fe *FuncEffects, ce *ast.CallExpr) {
 		fe.Writes["ValueMap.*"] = true
 		fe.Writes["json-target"] = true
 		fe.Allocates = true
+	}
+}
+
+// syncEffects: writes performed by the modelled sync/atomic primitives (see syncmodel.go).
+func (e *Engine) syncEffects(ce *ast.CallExpr, lvalKeys func(ast.Expr)) {
+	info := e.P.Info
+	se, ok := ce.Fun.(*ast.SelectorExpr)
+	if !ok {
+		return
+	}
+	var fn *types.Func
+	if sel := info.Selections[se]; sel != nil {
+		fn, _ = sel.Obj().(*types.Func)
+	} else {
+		fn, _ = info.Uses[se.Sel].(*types.Func)
+	}
+	if fn == nil || fn.Pkg() == nil || fn.Pkg().Path() != "sync/atomic" {
+		return
+	}
+	switch fn.FullName() {
+	case "(*sync/atomic.Value).Store":
+		lvalKeys(se.X)
+	case "sync/atomic.StorePointer", "sync/atomic.CompareAndSwapPointer":
+		if len(ce.Args) > 0 {
+			x := ce.Args[0]
+			for {
+				if p, ok := x.(*ast.ParenExpr); ok {
+					x = p.X
+					continue
+				}
+				break
+			}
+			if u, ok := x.(*ast.UnaryExpr); ok && u.Op == token.AND {
+				lvalKeys(u.X)
+			}
+		}
 	}
 }
 
